@@ -226,6 +226,24 @@ func registerHarnesses() {
 				}},
 			}}
 	}
+	// C17: Merge of a database in which nothing is live any more, concurrent with a writer and a reader
+	harnesses["C17/merge-nothing-live/KV"] = func() *harness {
+		return &harness{name: "C17e", cfg: core.Cfg{Mode: core.KV, Seg: 100}, ndb: 1, classes: classesFor(core.KV),
+			setup:   []core.Op{up(put("k1", "x")), up(put("k2", "y")), up(core.Call{F: "Delete", B: "b", K: "k1"}), up(core.Call{F: "Delete", B: "b", K: "k2"})},
+			queries: kvQueries("k1", "k2", "k3"),
+			threads: []hthread{
+				{name: "M", kind: "merge"},
+				{name: "W", kind: "update", body: func(do func(core.Call) core.Res, yield func()) error {
+					do(put("k3", "w"))
+					return nil
+				}},
+				{name: "R", kind: "view", body: func(do func(core.Call) core.Res, yield func()) error {
+					do(get("k3"))
+					do(get("k1"))
+					return nil
+				}},
+			}}
+	}
 	// C18: Backup concurrent with two writers whose records land in different segments
 	for _, mr := range [][2]int{{core.KV, core.F}, {core.K, core.F}, {core.S, core.F}, {core.KV, core.M}, {core.K, core.M}} {
 		mode, rw := mr[0], mr[1]
